@@ -99,6 +99,29 @@ def scen():
         bad.append('task_done() called more often than put() did not raise')
     except ValueError:
         pass
+    # a put that is refused (bounded queue at capacity) is not an unfinished task
+    bq = ctx.JoinableQueue(1)
+    bq.put('only')
+    refused = 0
+    for attempt in (lambda: bq.put_nowait('x'), lambda: bq.put('y', True, 0.05), lambda: bq.put('z', False)):
+        try:
+            attempt()
+            bad.append('JoinableQueue(1): a put into the full queue did not raise Full')
+        except stdq.Full:
+            refused += 1
+    got = bq.get(timeout=10)
+    bq.task_done()
+    done = []
+    t = threading.Thread(target=lambda: (bq.join(), done.append(1)), daemon=True)
+    t.start(); t.join(3)
+    if got != 'only' or not done:
+        bad.append('JoinableQueue(1): %d puts were refused with Full, the one item (%r) was taken and marked done, but join() '
+                   'does not return: refused puts were counted as unfinished tasks' % (refused, got))
+    try:
+        bq.task_done()
+        bad.append('JoinableQueue(1): a task_done() beyond the accepted puts did not raise (refused puts were counted)')
+    except ValueError:
+        pass
     return bad
 
 
